@@ -429,6 +429,24 @@ pub fn main(args: &[String]) {
                         }
                     }
                 }
+                // "enforce, store, look up": the stored result is compared with respellings of itself right afterwards
+                for p in PROFILES.iter().filter(|p| profiles.iter().any(|x| x == *p)) {
+                    for (fi, input) in [s0.clone(), format!(" {} ", s0), format!("{}\u{3000}", s0)].iter().enumerate() {
+                        let form = FORMS[fi % 3];
+                        let a1 = [input.clone()];
+                        let (res, _) = call_profile_full(p, form, "enforce", ArgKind::Str, &a1);
+                        rec.emit(json!({"ev": "call", "profile": p, "op": "enforce", "form": form, "arg": "str", "res": res.clone(), "c08": "", "borrowed": "-"}), &a1);
+                        if let Some(x) = res.get("ok").and_then(|o| cps_to_string(o)) {
+                            let lower: String = x.chars().flat_map(|c| c.to_lowercase()).collect();
+                            let upper: String = x.chars().flat_map(|c| c.to_uppercase()).collect();
+                            for (l, r) in [(x.clone(), lower), (upper, x.clone()), (x.clone(), input.clone())] {
+                                let a2 = [l, r];
+                                let (res2, _) = call_profile_full(p, form, "compare", ArgKind::Owned, &a2);
+                                rec.emit(json!({"ev": "call", "profile": p, "op": "compare", "form": form, "arg": "string", "res": res2, "c08": "", "borrowed": "-"}), &a2);
+                            }
+                        }
+                    }
+                }
                 for (a, b) in [("Id", "Ff"), ("Ff", "Id")] {
                     rec.allows(a, s0);
                     rec.allows(b, s0);
@@ -461,6 +479,115 @@ pub fn main(args: &[String]) {
                     // every count with an all-ASCII frame and with a randomly chosen frame
                     for (pre, suf) in [("a", "b"), (*rng.pick(&prefixes), *rng.pick(&suffixes))] {
                         let s = format!("{}{}{}", pre, std::iter::repeat(char::from_u32(*c).unwrap()).take(n).collect::<String>(), suf);
+                        rec.exercise(&mut rng, &s, per_string, &kinds, &profiles);
+                    }
+                }
+            }
+        }
+        "ctxpairs" => {
+            // every ordered pair of the 27 code points that have a context rule, each in a context in which its rule holds
+            // and in one in which it does not: state carried from one contextual code point of a label to the next
+            let mut cps: Vec<u32> = vec![0x200c, 0x200d, 0xb7, 0x375, 0x5f3, 0x5f4, 0x30fb];
+            cps.extend(0x660..=0x669);
+            cps.extend(0x6f0..=0x6f9);
+            let pass = |c: u32| -> String {
+                match c {
+                    0x200c => "\u{628}\u{200c}\u{628}".to_string(),
+                    0x200d => "\u{915}\u{94d}\u{200d}".to_string(),
+                    0xb7 => "l\u{b7}l".to_string(),
+                    0x375 => "\u{375}\u{3b1}".to_string(),
+                    0x5f3 => "\u{5d0}\u{5f3}".to_string(),
+                    0x5f4 => "\u{5d0}\u{5f4}".to_string(),
+                    0x30fb => "\u{30ab}\u{30fb}".to_string(),
+                    d => char::from_u32(d).unwrap().to_string(),
+                }
+            };
+            let fail = |c: u32| -> String { format!("a{}b", char::from_u32(c).unwrap()) };
+            for x in cps.iter() {
+                for y in cps.iter() {
+                    let labels = [format!("{}{}", pass(*x), fail(*y)), format!("{}{}", pass(*x), pass(*y)), format!("{}{}", fail(*x), pass(*y)),
+                                  format!("{}{}", char::from_u32(*x).unwrap(), char::from_u32(*y).unwrap())];
+                    for (li, s0) in labels.iter().enumerate() {
+                        // both classes on half of the labels each (the classes share the loop), the rule of y at y's position
+                        rec.allows(if (li + (*x as usize) + (*y as usize)) % 2 == 0 { "Id" } else { "Ff" }, s0);
+                        if li == 0 {
+                            let pos = s0.chars().count() - 2;
+                            let rule = registered_rule(*y);
+                            if !rule.is_empty() && rule != "?" {
+                                rec.ctx(rule, s0, pos);
+                            }
+                        }
+                    }
+                }
+            }
+        }
+        "ctxlimits" => {
+            // runs of 0..300 characters between a contextual code point and the neighbour / the other label member that decides
+            // its rule: transparent marks (the rule has to look across them), letters and digits (it must not)
+            let fillers: [u32; 4] = [0x64b, 0x300, 0x61, 0x5b8];
+            let templates: [(&str, &str, &str); 12] = [
+                ("\u{628}", "\u{200c}\u{628}", "zwnj"), ("\u{628}\u{200c}", "\u{628}", "zwnj"), ("", "\u{200c}\u{628}", "zwnj"), ("\u{628}\u{200c}", "", "zwnj"),
+                ("\u{915}\u{94d}", "\u{200d}", "zwj"), ("l", "\u{b7}l", "middle_dot"), ("\u{375}", "\u{3b1}", "keraia"), ("\u{5d0}", "\u{5f3}", "hebrew"),
+                ("\u{30fb}", "\u{30ab}", "katakana"), ("\u{661}", "\u{6f1}", "arabic_indic"), ("\u{6f1}", "\u{661}", "ext_arabic_indic"), ("\u{661}", "\u{662}", "arabic_indic"),
+            ];
+            for (pre, post, rule) in templates.iter() {
+                for f in fillers.iter() {
+                    for n in [0usize, 1, 2, 16, 30, 31, 32, 33, 34, 64, 65, 127, 128, 129, 255, 256, 257, 300] {
+                        let mut s0 = String::from(*pre);
+                        s0.extend(std::iter::repeat(char::from_u32(*f).unwrap()).take(n));
+                        s0.push_str(post);
+                        if s0.is_empty() {
+                            continue;
+                        }
+                        rec.allows(if n % 2 == 0 { "Id" } else { "Ff" }, &s0);
+                        // the rule at the position of its own character: the first contextual character of pre, else of post
+                        let chars: Vec<char> = s0.chars().collect();
+                        let own = |c: char| !registry_obs(c as u32).is_empty();
+                        let pre_n = pre.chars().count();
+                        let pos = match pre.chars().position(own) {
+                            Some(i) => i,
+                            None => pre_n + n + post.chars().position(own).unwrap_or(0),
+                        };
+                        if pos < chars.len() {
+                            rec.ctx(rule, &s0, pos);
+                        }
+                    }
+                }
+            }
+        }
+        "expanders" => {
+            // the characters whose normalized / lower-cased form is longest relative to their own length (fixed-size
+            // scratch buffers sized by an "expansion factor"), repeated 1..64 times alone and behind a letter
+            let mut scored: Vec<(u32, usize, u32)> = Vec::new(); // (kind, ratio x 100, cp)
+            for cp in 0..0x110000u32 {
+                if let Some(c) = char::from_u32(cp) {
+                    let own = c.len_utf8();
+                    let t = c.to_string();
+                    let k = t.nfkc().collect::<String>().len();
+                    let n = t.nfc().collect::<String>().len();
+                    let l = c.to_lowercase().collect::<String>().len();
+                    for (kind, len) in [(0u32, k), (1, n), (2, l)] {
+                        if len > own {
+                            scored.push((kind, len * 100 / own, cp));
+                        }
+                    }
+                }
+            }
+            let mut reps: Vec<u32> = Vec::new();
+            for kind in 0..3u32 {
+                let mut v: Vec<&(u32, usize, u32)> = scored.iter().filter(|x| x.0 == kind).collect();
+                v.sort_by(|a, b| b.1.cmp(&a.1).then(a.2.cmp(&b.2)));
+                for x in v.iter().take(if kind == 0 { 6 } else { 3 }) {
+                    reps.push(x.2);
+                }
+            }
+            reps.sort();
+            reps.dedup();
+            for c in reps.iter() {
+                let ch = char::from_u32(*c).unwrap();
+                for n in [1usize, 2, 3, 5, 6, 7, 8, 12, 13, 16, 17, 20, 21, 22, 23, 30, 64] {
+                    for pre in ["", "a "] {
+                        let s = format!("{}{}", pre, std::iter::repeat(ch).take(n).collect::<String>());
                         rec.exercise(&mut rng, &s, per_string, &kinds, &profiles);
                     }
                 }
